@@ -193,12 +193,17 @@ def _lazy_iterator_sites(fi: FuncInfo) -> List["Site"]:
             if (isinstance(f, ast.Name) and nm in _CONSUMERS) or (isinstance(f, ast.Attribute) and nm in _CONSUMING_METHODS):
                 continue
             if isinstance(f, ast.Attribute) and nm in ("append", "insert", "add", "setdefault", "appendleft", "put"):
+                if isinstance(f.value, ast.Name) and _local_worklist(fi, f.value.id):
+                    continue  # a work list of this activation (iterative traversal): read, and emptied, before it returns
                 out.append(Site(fi, stmt_of(n), f"{ast.unparse(n)[:60]}", "a lazy iterator (generator expression / map / filter / zip) is stored in a container: it is computed when - and only the first time - somebody reads it"))
                 continue
         if isinstance(par, ast.Assign) and par.value is n and any(isinstance(t, (ast.Attribute, ast.Subscript)) for t in par.targets):
             out.append(Site(fi, par, f"{ast.unparse(n)[:60]}", "a lazy iterator is stored in an attribute / container slot: it is computed when - and only the first time - somebody reads it"))
             continue
         if isinstance(par, (ast.List, ast.Tuple, ast.Set, ast.Dict)):
+            gp = _parent(par)
+            if isinstance(gp, ast.Assign) and gp.value is par and len(gp.targets) == 1 and isinstance(gp.targets[0], ast.Name) and _local_worklist(fi, gp.targets[0].id):
+                continue
             out.append(Site(fi, stmt_of(n), f"{ast.unparse(n)[:60]}", "a lazy iterator is placed in a container literal"))
             continue
         # A lazy iterator held in a local (or handed back to the caller) and consumed later in the same activation is
@@ -267,6 +272,39 @@ def _record_fields(tgt) -> Optional[List[str]]:
     if all(stored.get(p_) == p_ for p_ in ps):
         return ps
     return None
+
+
+def _local_worklist(fi: FuncInfo, name: str) -> bool:
+    """`name` is a local container that never leaves the activation: it is only indexed, measured, tested, iterated
+    and used as the receiver of its own methods - never returned, stored, yielded or handed to a call"""
+    from .model import parent as _parent
+
+    if name in fi.params or isinstance(fi.node, ast.Lambda):
+        return False
+    if any(isinstance(x, (ast.Global, ast.Nonlocal)) and name in x.names for x in ast.walk(fi.node)):
+        return False
+    for x in ast.walk(fi.node):
+        if isinstance(x, (ast.FunctionDef, ast.AsyncFunctionDef, ast.Lambda)) and x is not fi.node and any(isinstance(y, ast.Name) and y.id == name for y in ast.walk(x)):
+            return False  # captured by a nested function
+    for x in own_nodes(fi):
+        if isinstance(x, ast.Name) and x.id == name and isinstance(x.ctx, ast.Load):
+            p_ = _parent(x)
+            if isinstance(p_, ast.Attribute) and p_.value is x and isinstance(_parent(p_), ast.Call) and _parent(p_).func is p_:
+                continue
+            if isinstance(p_, ast.Subscript) and p_.value is x:
+                continue
+            if isinstance(p_, (ast.While, ast.If, ast.IfExp)) and getattr(p_, "test", None) is x:
+                continue
+            if isinstance(p_, ast.UnaryOp) and isinstance(p_.op, ast.Not):
+                continue
+            if isinstance(p_, ast.BoolOp):
+                continue
+            if isinstance(p_, (ast.For, ast.comprehension)) and p_.iter is x:
+                continue
+            if isinstance(p_, ast.Call) and isinstance(p_.func, ast.Name) and p_.func.id in ("len", "bool") and x in p_.args:
+                continue
+            return False
+    return True
 
 
 def _transient_inert_record(model: Model, fi: FuncInfo, call: ast.Call, idx: Optional[int] = None, kwname: Optional[str] = None) -> bool:
